@@ -101,6 +101,7 @@ impl std::error::Error for ThreadPoolBuildError {}
 #[derive(Default, Debug)]
 pub struct ThreadPoolBuilder {
     n: usize,
+    adopt_caller: bool,
 }
 
 impl ThreadPoolBuilder {
@@ -130,6 +131,15 @@ impl ThreadPoolBuilder {
         self
     }
 
+    /// As in rayon: the calling thread becomes a worker of the pool and stays registered as one
+    /// for the rest of its life; a thread that already is a worker of some pool cannot adopt
+    /// itself into another (the build fails). Scheduling is not changed by it here (the pool
+    /// still runs `n` simulated workers, an over-approximation).
+    pub fn use_current_thread(mut self) -> Self {
+        self.adopt_caller = true;
+        self
+    }
+
     pub fn build(self) -> Result<ThreadPool, ThreadPoolBuildError> {
         STATE.with(|s| {
             let mut s = s.borrow_mut();
@@ -142,6 +152,8 @@ impl ThreadPoolBuilder {
             } else if self.n > s.plan.max_spawn {
                 s.stats.build_failures_too_many += 1;
                 Err(ThreadPoolBuildError("cannot spawn that many threads"))
+            } else if self.adopt_caller && ADOPTED.with(|a| a.replace(true)) {
+                Err(ThreadPoolBuildError("the current thread is already a worker of a thread pool"))
             } else {
                 Ok(ThreadPool { inner: Rc::new(PoolInner::new(self.n.max(1))) })
             }
@@ -367,6 +379,11 @@ impl ThreadPool {
         sc.drain();
         r
     }
+}
+
+shuttle::thread_local! {
+    /// this simulated thread was adopted as a worker by `use_current_thread` (for good)
+    static ADOPTED: std::cell::Cell<bool> = std::cell::Cell::new(false);
 }
 
 shuttle::thread_local! {
